@@ -313,3 +313,35 @@ def _run_stream(case):
         except Exception as e:
             raise crash_violation("stream", e, {})
     return classes
+
+
+def extra(ctx, stats):
+    """Birthday search over the memo keys: distinct child arrays must not share a cache key.  2.5e5 (quick) / 1.5e6
+    (thorough) generated arrays: with 64-bit content digests a collision is astronomically unlikely (2e-9 / 6e-8); a key
+    of 32 bits or fewer collides with probability > 0.99.  A collision makes the memoised functions return another
+    input's result."""
+    from phyclone.utils.utils import NumpyArrayListHasher, NumpyTwoArraysHasher
+    from vp.common import case_hash, derive_seed
+
+    n = ctx.pick(250000, 1500000)
+    r = np.random.default_rng(derive_seed(ctx.seed, "c14keys"))
+    fixed = np.zeros((1, 5))
+    seen_pair, seen_list = {}, {}
+    base = r.integers(0, 400, size=(n, 2))
+    for i in range(n):
+        d, a = int(base[i, 0]), int(base[i, 1])
+        arr = np.array([[float(d), float(a), float(i % 7), float(d * a), 0.5 * i]])
+        kp = NumpyTwoArraysHasher(arr, fixed).h
+        kl = NumpyArrayListHasher([arr]).h
+        for seen, k, what in ((seen_pair, kp, "pairwise-convolution"), (seen_list, kl, "children-recursion")):
+            j = seen.get(k)
+            if j is not None:
+                stats.violations.append(dict(component="memo/key-collision/" + what, message="two different child arrays (generated #%d and #%d) get the same %s cache key" % (j, i, what), tags=dict(fn=what), case=dict(kind="keys", i=i, j=j, seed=ctx.seed), detail={}))
+                stats.evaluations += 1
+                return
+            seen[k] = i
+    stats.evaluations += 1
+    stats.inner += n
+    stats.count("kind:key-collision-search")
+    stats.nontrivial_keys.add(case_hash(["keys", n]))
+    stats.notes.append("cache-key birthday search: %d distinct arrays, no shared key" % n)
